@@ -406,23 +406,21 @@ theorem getStream_safe {α : Type} {B : Nat} (d : Dump) (b : Bytes) (ty : Nat) (
   · rename_i s hs
     exact safe_catch (h s (getRawStream_size hs))
 
-theorem readAll_safe (ms : MemSizes) (hms : ms.Bounded) (b : Bytes) (hsz : SliceLen b.size) :
-    Safe (Bnd b) (readAll ms b) := by
-  unfold readAll
-  split
-  · exact safe_pure _
-  · rename_i d _
-    refine safe_bind (getStream_safe _ _ _ _ (fun s hs => readThreadList_safe ms hms s b _ hs)) (fun _ _ => ?_)
-    refine safe_bind (getStream_safe _ _ _ _ (fun s hs => readModuleList_safe ms hms s b _ hsz hs)) (fun _ _ => ?_)
-    refine safe_bind (getStream_safe _ _ _ _ (fun s hs => readUnloadedModuleList_safe ms hms s b _ hsz hs)) (fun _ _ => ?_)
-    refine safe_bind (getStream_safe _ _ _ _ (fun s hs => readMemoryList_safe ms hms s b _ hs)) (fun _ _ => ?_)
-    refine safe_bind (getStream_safe _ _ _ _ (fun s hs => readMemory64List_safe ms hms s b _ hs)) (fun _ _ => ?_)
-    refine safe_bind (getStream_safe _ _ _ _ (fun s hs => readMemoryInfoList_safe ms hms s b _ hs)) (fun _ _ => ?_)
-    refine safe_bind (getStream_safe _ _ _ _ (fun s hs => readThreadNames_safe ms hms s b _ hsz hs)) (fun _ _ => ?_)
-    refine safe_bind (getStream_safe _ _ _ _ (fun s hs => readThreadInfoList_safe ms hms s b _ hs)) (fun _ _ => ?_)
-    refine safe_bind (getStream_safe _ _ _ _ (fun s hs => readHandleData_safe ms hms s b _ hsz hs)) (fun _ _ => ?_)
-    refine safe_bind (getStream_safe _ _ _ _ (fun s _ => readException_safe s b _)) (fun _ _ => ?_)
-    exact safe_pure _
+theorem readCore_safe (ms : MemSizes) (hms : ms.Bounded) (b : Bytes) (d : Dump) (hsz : SliceLen b.size) :
+    Safe (Bnd b) (readCore ms b d) := by
+  unfold readCore
+  dsimp only
+  refine safe_bind (getStream_safe _ _ _ _ (fun s hs => readThreadList_safe ms hms s b _ hs)) (fun _ _ => ?_)
+  refine safe_bind (getStream_safe _ _ _ _ (fun s hs => readModuleList_safe ms hms s b _ hsz hs)) (fun _ _ => ?_)
+  refine safe_bind (getStream_safe _ _ _ _ (fun s hs => readUnloadedModuleList_safe ms hms s b _ hsz hs)) (fun _ _ => ?_)
+  refine safe_bind (getStream_safe _ _ _ _ (fun s hs => readMemoryList_safe ms hms s b _ hs)) (fun _ _ => ?_)
+  refine safe_bind (getStream_safe _ _ _ _ (fun s hs => readMemory64List_safe ms hms s b _ hs)) (fun _ _ => ?_)
+  refine safe_bind (getStream_safe _ _ _ _ (fun s hs => readMemoryInfoList_safe ms hms s b _ hs)) (fun _ _ => ?_)
+  refine safe_bind (getStream_safe _ _ _ _ (fun s hs => readThreadNames_safe ms hms s b _ hsz hs)) (fun _ _ => ?_)
+  refine safe_bind (getStream_safe _ _ _ _ (fun s hs => readThreadInfoList_safe ms hms s b _ hs)) (fun _ _ => ?_)
+  refine safe_bind (getStream_safe _ _ _ _ (fun s hs => readHandleData_safe ms hms s b _ hsz hs)) (fun _ _ => ?_)
+  refine safe_bind (getStream_safe _ _ _ _ (fun s _ => readException_safe s b _)) (fun _ _ => ?_)
+  exact safe_pure _
 
 /-! ### `readAll` reports errors as values -/
 
@@ -453,11 +451,10 @@ theorem getStream_noErr {α : Type} (d : Dump) (b : Bytes) (ty : Nat) (reader : 
   · exact noErr_pure _
   · exact noErr_catch _
 
-theorem readAll_noErr (ms : MemSizes) (b : Bytes) : NoErr (readAll ms b) := by
-  unfold readAll
-  split
-  · exact noErr_pure _
-  · repeat (refine noErr_bind (getStream_noErr _ _ _ _) (fun _ => ?_))
-    exact noErr_pure _
+theorem readCore_noErr (ms : MemSizes) (b : Bytes) (d : Dump) : NoErr (readCore ms b d) := by
+  unfold readCore
+  dsimp only
+  repeat (refine noErr_bind (getStream_noErr _ _ _ _) (fun _ => ?_))
+  exact noErr_pure _
 
 end MdModel.Dump
